@@ -15,6 +15,8 @@ History kinds (the `names` sent and what differs between A's and B's files):
     k2  names=schedules            trips dropped / times moved only (what `schedules` re-reads: the per-line files)
     k3  names=scenarios,schedules  trips / times / scenario 2
     k6  names=schedules,scenarios  the same with the schedules named FIRST (the handler reloads in the order given)
+    k8  names=schedules (or all)   the server starts while ONE line's schedule file (the line with most trips) is missing; the file
+                                   then appears (B = A, complete): what was found missing at start-up must not be remembered
     k7  names=scenarios            only the scenario file changes: B = A WITHOUT scenario 2, then (instead of A again) A with scenario 2
                                    back under ANOTHER definition -- a set cached for a scenario that disappeared must not be served
                                    when its uuid returns (not among the refreshes C15 names; it holds on the code as it is and
@@ -36,11 +38,11 @@ from concurrent.futures import ThreadPoolExecutor
 sys.path.insert(0, os.path.dirname(os.path.abspath(__file__)))
 import build, gen, l3  # noqa: E402
 
-KINDS = ("k1", "k2", "k3", "k4", "k5", "k6", "k7")
-NAMES = {"k1": "all", "k2": "schedules", "k3": "scenarios,schedules", "k4": "all", "k5": "all", "k6": "schedules,scenarios", "k7": "scenarios"}
+KINDS = ("k1", "k2", "k3", "k4", "k5", "k6", "k7", "k8")
+NAMES = {"k1": "all", "k2": "schedules", "k3": "scenarios,schedules", "k4": "all", "k5": "all", "k6": "schedules,scenarios", "k7": "scenarios", "k8": "schedules"}
 # what can be left out of a cache directory, and the data status a server started on the rest reports
 OMITTABLE = ("lines", "paths", "schedules", "scenarios", "agencies", "services", "nodes")
-QUICK_PLAN = [("k1", False), ("k2", True), ("k3", False), ("k4", True), ("k5", False), ("k4", False), ("k5", True), ("k1", True), ("k6", False), ("k6", True), ("k7", False), ("k7", True)]
+QUICK_PLAN = [("k1", False), ("k2", True), ("k3", False), ("k4", True), ("k5", False), ("k4", False), ("k5", True), ("k1", True), ("k6", False), ("k6", True), ("k7", False), ("k7", True), ("k8", False), ("k8", True)]
 QUICK_OMITS = {3: "lines", 4: "paths", 5: "schedules", 6: "lines"}      # history index -> kind of files left out
 
 
@@ -50,6 +52,8 @@ def omit_files(ds, what):
         return ()
     if what == "schedules":
         return tuple("lines/line_%s.capnpbin" % l3.uuid_of(l3.K_LINE, l[0]) for l in ds.lines)
+    if what.startswith("linefile:"):
+        return ("lines/line_%s.capnpbin" % l3.uuid_of(l3.K_LINE, int(what[9:])),)
     return ("%s.capnpbin" % what,)
 
 
@@ -196,7 +200,15 @@ def history_spec(seed, tier, index):
     prof = dict(gen.PROFILES["opt"], pempty=0.02)
     A = gen.gen_dataset(rng.fork(), prof)
     A_back = None
-    if kind == "k7":
+    if kind == "k8":
+        pl = {p[0]: p[1] for p in A.paths}
+        cnt = {}
+        for t in A.trips:
+            cnt[pl[t[1]]] = cnt.get(pl[t[1]], 0) + 1
+        omit = "linefile:%d" % max(sorted(cnt), key=lambda k: cnt[k])
+        B = copy.deepcopy(A)
+        rng.fork()
+    elif kind == "k7":
         B = copy.deepcopy(A)
         B.scens = [sc for sc in B.scens if sc[0] != 2]
         A_back = copy.deepcopy(A)
@@ -226,13 +238,13 @@ def run_history(binary, spec, workdir, keep_on_failure=True):
     """-> dict(fails=[(why, replay_dict)], evaluations, changed, success, wall)"""
     t0 = time.time()
     kind, names, omit, cache_all, reqs, A, B = spec["kind"], spec["names"], spec["omit"], spec["cache_all"], spec["requests"], spec["A"], spec["B"]
-    omit_a = omit_files(A, omit) if kind == "k4" else ()
+    omit_a = omit_files(A, omit) if kind in ("k4", "k8") else ()
     omit_b = omit_files(B, omit) if kind == "k5" else ()
     cache = os.path.join(workdir, "cache")
     shutil.rmtree(workdir, ignore_errors=True)
     os.makedirs(cache)
     base = dict(level="L3 refresh history on the real binary", seed=spec.get("seed"), tier=spec.get("tier"), history=spec["index"], kind=kind,
-                cache_all=cache_all, omit=omit, omitted_from=("A (start-up)" if kind == "k4" else "B (refresh)") if omit else None,
+                cache_all=cache_all, omit=omit, omitted_from=("A (start-up)" if kind in ("k4", "k8") else "B (refresh)") if omit else None,
                 update="/updateCache?names=" + names, dataset_A=A.text(), dataset_B=B.text(), binary=binary)
     fails, evals, changed, success = [], 0, 0, 0
     stub = l3.OsrmStub()
